@@ -26,6 +26,7 @@ type c05Step struct {
 	S  string   `json:"s,omitempty"`
 	R  string   `json:"r,omitempty"`
 	F  []string `json:"f,omitempty"`
+	ID string   `json:"id,omitempty"` // sreq_start: "auto" (ListRoots inside a tool) | "x" (SendRequest with ONE caller-chosen id)
 }
 
 type c05Obs struct {
@@ -224,7 +225,9 @@ func c05Run(kind, id string, steps []c05Step) (res c05Result) {
 	for i, st := range steps {
 		var o c05Obs
 		o.Reached = []string{}
-		fail := func(f string, a ...interface{}) { res.Broken = fmt.Sprintf("step %d %s: ", i, st.Op) + fmt.Sprintf(f, a...) }
+		fail := func(f string, a ...interface{}) {
+			res.Broken = fmt.Sprintf("step %d %s: ", i, st.Op) + fmt.Sprintf(f, a...)
+		}
 		w.nonce++
 		nonce := fmt.Sprintf("nonce-%s-%d.", id, w.nonce)
 		params := map[string]interface{}{"level": "info", "data": nonce}
@@ -312,10 +315,43 @@ func c05Run(kind, id string, steps []c05Step) (res c05Result) {
 			s := w.sess[st.S]
 			ch := make(chan string, 1)
 			w.calls[st.R] = ch
+			if st.ID == "x" {
+				// the server-side API called directly with a caller-chosen id (ids are scoped to a session)
+				cctx, cancel := context.WithTimeout(ctx, 8*time.Second)
+				w.mu.Lock()
+				w.cancels[st.R] = cancel
+				w.mu.Unlock()
+				go func(sid string) {
+					var raw *json.RawMessage
+					var err error
+					if kind == "legacy" {
+						raw, err = w.lsrv.SendRequest(cctx, sid, &mcp.JSONRPCRequest{JSONRPC: "2.0", ID: int64(424242), Request: mcp.Request{Method: "roots/list"}})
+					} else {
+						raw, err = w.srv.SendRequest(cctx, sid, &mcp.JSONRPCRequest{JSONRPC: "2.0", ID: "dup-x", Request: mcp.Request{Method: "roots/list"}})
+					}
+					if err != nil {
+						ch <- "ERR:" + err.Error()
+						return
+					}
+					var lr struct {
+						Roots []struct {
+							Name string `json:"name"`
+						} `json:"roots"`
+					}
+					json.Unmarshal(*raw, &lr)
+					names := ""
+					for _, r := range lr.Roots {
+						names += r.Name
+					}
+					ch <- "ROOTS:" + names
+				}(s.id)
+			}
 			callID := "call-" + st.R
 			body, _ := json.Marshal(map[string]interface{}{"jsonrpc": "2.0", "id": callID, "method": "tools/call",
 				"params": map[string]interface{}{"name": "askroots", "arguments": map[string]interface{}{"nonce": st.R}}})
-			if kind == "legacy" {
+			if st.ID == "x" {
+				// nothing to post
+			} else if kind == "legacy" {
 				if r := w.post(ctx, s, body); r.Status != 202 {
 					fail("tools/call status %d", r.Status)
 					return
@@ -345,6 +381,7 @@ func c05Run(kind, id string, steps []c05Step) (res c05Result) {
 			var on []string
 			dl := time.Now().Add(2 * time.Second)
 			for found == nil && time.Now().Before(dl) {
+				cnt := map[string]int{}
 				for name, ss := range w.sess {
 					for _, stream := range ss.streams {
 						for _, e := range stream.Events() {
@@ -352,10 +389,14 @@ func c05Run(kind, id string, steps []c05Step) (res c05Result) {
 								ID     json.RawMessage `json:"id"`
 								Method string          `json:"method"`
 							}
-							if json.Unmarshal([]byte(e.Data), &m) == nil && m.Method == "roots/list" && !w.seen[name+string(m.ID)] {
-								w.seen[name+string(m.ID)] = true
-								found = m.ID
-								on = append(on, name)
+							if json.Unmarshal([]byte(e.Data), &m) == nil && m.Method == "roots/list" {
+								cnt[name+string(m.ID)]++
+								key := fmt.Sprintf("%s|%s|%d", name, m.ID, cnt[name+string(m.ID)])
+								if !w.seen[key] {
+									w.seen[key] = true
+									found = m.ID
+									on = append(on, name)
+								}
 							}
 						}
 					}
